@@ -553,46 +553,97 @@ func ruleHeapIterator(r *Run) {
 		o.Fail(r.pos(fn.Pos()), "no range loop over the whole step.Samples")
 		return
 	}
-	var cNeg, cRoom *ssa.BinOp
-	var cLess *ssa.Call
-	for b := range loop.Blocks {
-		for _, in := range b.Instrs {
-			switch x := in.(type) {
-			case *ssa.BinOp:
-				if x.Op == tokLSS.tok() {
-					fx, _, okx := loadOfField(x.X)
-					if okx && fx == "limit" {
-						if z, ok := constInt(x.Y); ok && z == 0 {
-							cNeg = x
-						}
+	// the three decisions are taken in the loop or in a helper called from the loop
+	helpers := map[*ssa.Function]bool{}
+	var addHelpers func(calls []ssa.CallInstruction, depth int)
+	addHelpers = func(calls []ssa.CallInstruction, depth int) {
+		for _, c := range calls {
+			h := staticCallee(c)
+			if h == nil || h.Blocks == nil || h == fn || helpers[h] || depth > 2 || len(h.Blocks) > 40 {
+				continue
+			}
+			pk := h.Pkg
+			if pk == nil && h.Origin() != nil {
+				pk = h.Origin().Pkg
+			}
+			if pk != fn.Pkg {
+				continue
+			}
+			helpers[h] = true
+			addHelpers(callsIn(h), depth+1)
+		}
+	}
+	var loopCalls []ssa.CallInstruction
+	for _, c := range callsIn(fn) {
+		if loop.Blocks[c.Block()] {
+			loopCalls = append(loopCalls, c)
+		}
+	}
+	addHelpers(loopCalls, 0)
+	isElem0 := func(v ssa.Value) bool {
+		// heap.Min(), or elements[0] read directly
+		v = originValue(v)
+		if mc, ok := v.(*ssa.Call); ok && staticCallee(mc) != nil && staticCallee(mc).Name() == "Min" {
+			return true
+		}
+		if lu, ok := v.(*ssa.UnOp); ok {
+			if ia, ok := lu.X.(*ssa.IndexAddr); ok {
+				if z, ok := constInt(ia.Index); ok && z == 0 {
+					if f, _, ok := loadOfField(ia.X); ok && f == "elements" {
+						return true
 					}
-					if c, ok := x.X.(*ssa.Call); ok && staticCallee(c) != nil && staticCallee(c).Name() == "Len" {
-						if fy, _, oky := loadOfField(x.Y); oky && fy == "limit" {
-							cRoom = x
-						}
-					}
-				}
-			case *ssa.Call:
-				if f, _, ok := loadOfField(x.Call.Value); ok && f == "less" && loop.Blocks[x.Block()] {
-					cLess = x
 				}
 			}
 		}
+		return false
+	}
+	var cNeg, cRoom *ssa.BinOp
+	var cLess *ssa.Call
+	scan := func(in ssa.Instruction) {
+		switch x := in.(type) {
+		case *ssa.BinOp:
+			if x.Op == tokLSS.tok() {
+				fx, _, okx := loadOfField(x.X)
+				if okx && fx == "limit" {
+					if z, ok := constInt(x.Y); ok && z == 0 {
+						cNeg = x
+					}
+				}
+				if c, ok := x.X.(*ssa.Call); ok {
+					isLen := staticCallee(c) != nil && staticCallee(c).Name() == "Len"
+					if bi, ok := c.Call.Value.(*ssa.Builtin); ok && bi.Name() == "len" {
+						if f, _, ok := loadOfField(c.Call.Args[0]); ok && f == "elements" {
+							isLen = true
+						}
+					}
+					if fy, _, oky := loadOfField(x.Y); isLen && oky && fy == "limit" {
+						cRoom = x
+					}
+				}
+			}
+		case *ssa.Call:
+			if f, _, ok := loadOfField(x.Call.Value); ok && f == "less" && len(x.Call.Args) == 2 && isElem0(x.Call.Args[1]) {
+				cLess = x
+			}
+		}
+	}
+	for b := range loop.Blocks {
+		for _, in := range b.Instrs {
+			scan(in)
+		}
+	}
+	for h := range helpers {
+		allInstrs(h, scan)
 	}
 	if cNeg == nil || cRoom == nil || cLess == nil {
 		o.Undecide(r.pos(fn.Pos()), "the three decisions (limit < 0, heap.Len() < limit, less(s, heap.Min())) were not all found")
 		return
 	}
 	good := true
-	// less(s, Min()) argument order
-	if mc, ok := cLess.Call.Args[1].(*ssa.Call); !ok || staticCallee(mc) == nil || staticCallee(mc).Name() != "Min" {
-		good = false
-		o.Fail(r.pos(cLess.Pos()), "the replacement test is less(%s, %s), expected less(sample, heap.Min())", describe(cLess.Call.Args[0], 0), describe(cLess.Call.Args[1], 0))
-	}
 	type ev struct{ push, pop, app int }
 	run := func(neg, room, less bool) ev {
 		assume := map[ssa.Value]constant.Value{cNeg: constant.MakeBool(neg), cRoom: constant.MakeBool(room), cLess: constant.MakeBool(less)}
-		w := &feWalker{Fn: fn, Assume: assume}
+		w := &feWalker{Fn: fn, Assume: assume, Inline: func(callee *ssa.Function, depth int) bool { return helpers[callee] && depth <= 3 }}
 		var worst ev
 		for _, e := range w.RunFrom(loop.Body, loop.Header) {
 			var cur ev
@@ -609,7 +660,11 @@ func ruleHeapIterator(r *Run) {
 			_ = headerSeen
 			firstIter[loop.Body] = true
 			for _, c := range e.State.calls {
-				if !firstIter[c.Call.Block()] || !loop.Blocks[c.Call.Block()] {
+				at := c.Call.Block()
+				if c.Top != nil {
+					at = c.Top.Block() // the loop instruction a helper's call belongs to
+				}
+				if !firstIter[at] || !loop.Blocks[at] {
 					continue
 				}
 				if callIs(c.Call, "container/heap", "Push") {
@@ -669,8 +724,8 @@ func ruleHeapIterator(r *Run) {
 	oh := r.Ob("PV-ROLE", "logqlmetric.sampleHeap adapter", "Less(i, j) = compare(elements[i], elements[j]); Min() = elements[0]; Push appends; Pop removes the last element")
 	hl := p.Method(metricPkg, "sampleHeap", "Less")
 	hm := p.Method(metricPkg, "sampleHeap", "Min")
-	if hl == nil || hm == nil {
-		oh.Fail("-", "methods not found")
+	if hl == nil {
+		oh.Fail("-", "sampleHeap.Less not found")
 		return
 	}
 	aok := false
@@ -683,8 +738,8 @@ func ruleHeapIterator(r *Run) {
 			}
 		}
 	}
-	mok := false
-	for _, ret := range returnsOf(hm) {
+	mok := hm == nil // without a Min method the worst element is read as elements[0] where it is used (checked above)
+	for _, ret := range returnsOfOpt(hm) {
 		if lu, ok := ret.Results[0].(*ssa.UnOp); ok {
 			if ia, ok := lu.X.(*ssa.IndexAddr); ok {
 				if z, ok := constInt(ia.Index); ok && z == 0 {
@@ -812,4 +867,11 @@ func ruleByNesting(r *Run) {
 	if good {
 		o.OK("fresh by-set = L ∩ receiver's by-set (if any); never the receiver").At(r.pos(fn.Pos()))
 	}
+}
+
+func returnsOfOpt(fn *ssa.Function) []*ssa.Return {
+	if fn == nil {
+		return nil
+	}
+	return returnsOf(fn)
 }
